@@ -886,3 +886,53 @@ def session_limits(c):
                 break
     c.cov["evaluations"] += compared
     c.cov["traces_validated_against_impl"] = c.cov.get("traces_validated_against_impl", 0) + len(index)
+
+
+def atomicity(c, pid, what):
+    """Real-thread stress of the manager's critical sections that the specifications treat as ONE action (no scheduling hook can
+    sit inside a window that does not exist in today's code): `what` = "subs" (C18: the subscriber list under concurrent
+    subscribe / unsubscribe with a dead monitor in front) or "vrps" (C13: snapshot installs of one cache concurrent with another
+    cache's incremental updates and a third one's removal).  The expected outcome does not depend on the interleaving, so the
+    comparison is exact; detection of a split critical section is probabilistic (window x rounds)."""
+    thorough = c.tier == "thorough"
+    inp = os.path.join(vf.WORK, f"{pid}.atom.in")
+    outp = os.path.join(vf.WORK, f"{pid}.atom.out")
+    with open(inp, "w") as f:
+        if what == "subs":
+            f.write(f"subs {40 if thorough else 12} 300\n")
+        else:
+            f.write(f"vrps {8 if thorough else 3} 20000 1500\n")
+    if os.path.exists(outp):
+        os.remove(outp)
+    rc, out = vf.daemon_test("table_manager::verif_harness::atomicity_stress", env={"VERIF_IN": inp, "VERIF_OUT": outp}, timeout=1200)
+    if rc != 0 or not os.path.exists(outp):
+        raise vf.ToolError(f"atomicity_stress failed rc={rc}:\n{out[-3000:]}")
+    rounds = 0
+    for j in vf.read_jsonl(outp):
+        rounds += 1
+        if j["kind"] == "subs":
+            why = None
+            if j["new_pre"] != j["new"] or j["new_post"] != j["new"]:
+                why = "a monitor that subscribed (while others were being unsubscribed / with a dead monitor in the list) missed a change"
+            elif j["old_saw"]:
+                why = "an unsubscribed monitor still received a change"
+            elif j["listed"] != j["new"] + 1:
+                why = "the subscriber list holds something else than the live monitors (and the dead, never unsubscribed one)"
+            if why:
+                c.violation("atomic.subscribers", dict(j, why=why), {"harness": "atomicity_stress", "input": open(inp).read(), "round": j})
+                break
+        else:
+            why = None
+            if j["a_last"] != j["a_expected"] or j["a_other"]:
+                why = "after the last snapshot of cache A the table holds something else than that snapshot for it"
+            elif not j["b_ok"]:
+                why = "cache B's announcements / withdrawals, made while cache A installed snapshots, are not what the table holds for it"
+            elif j["c"]:
+                why = "VRPs of cache C, whose session went away meanwhile, are still installed"
+            if why:
+                c.violation("atomic.vrps", dict(j, why=why), {"harness": "atomicity_stress", "input": open(inp).read(), "round": j})
+                break
+    if rounds == 0:
+        raise vf.ToolError("atomicity_stress wrote nothing")
+    c.cov["parts"]["atomicity-" + what] = {"rounds": rounds, "threads": 4}
+    c.cov["evaluations"] += rounds
